@@ -26,10 +26,16 @@ Elements == {"lagrange1", "lagrange2", "lagrange3", "discontinuous0", "discontin
              "p2bubble", "hermite3", "argyris", "bfs", "cdssy", "q1tbnp"}
 
 \* Sig(el, fam, dim)[d+1] = number of dofs attached to ONE d-dimensional entity; << >> = family does not exist on the shape
+\* dimension 1: the families that have an evaluator for intervals (Hypercube<1>: Lagrange-1/2/3, Discontinuous-0/1, Bernstein-2,
+\* Hermite-3, Bogner-Fox-Schmit; Simplex<1>: only the shape-generic Discontinuous-0/1)
+Supported1D(el, fam) ==
+  IF fam = "hypercube" THEN el \in {"lagrange1", "lagrange2", "lagrange3", "discontinuous0", "discontinuous1", "bernstein2", "hermite3", "bfs"}
+  ELSE el \in {"discontinuous0", "discontinuous1"}
 Sig(el, fam, dim) ==
   LET z == [d \in 1..(dim + 1) |-> 0]
       simp == fam = "simplex"
-  IN CASE el = "lagrange1" -> [z EXCEPT ![1] = 1]
+  IN IF dim = 1 /\ ~Supported1D(el, fam) THEN << >> ELSE
+     CASE el = "lagrange1" -> [z EXCEPT ![1] = 1]
        [] el = "lagrange2" -> IF simp THEN [d \in 1..(dim + 1) |-> IF d <= 2 THEN 1 ELSE 0] ELSE [d \in 1..(dim + 1) |-> 1]
        [] el = "bernstein2" -> IF simp THEN << >> ELSE [d \in 1..(dim + 1) |-> 1]
        [] el = "lagrange3" -> IF simp THEN [d \in 1..(dim + 1) |-> IF d = 1 THEN 1 ELSE IF d = 2 THEN 2 ELSE IF d = 3 THEN 1 ELSE 0]
@@ -202,6 +208,66 @@ NodeSets(el, fam, dim, dkm) ==
 \* numerator of N(p) over  Len(sets) * S^D ; P = integer coordinates (scale S) of the local vertices
 ApplyNode(sets, p, P, S, D) == FoldSeq(LAMBDA W, acc : acc + PEval(p, BaryOf(P, W), S, D), 0, sets)
 NodeDivisible(sets, P) == \A i \in 1..Len(sets) : BaryDivisible(P, sets[i])
+
+\* ---- (e) dimension 1: intervals ------------------------------------------------------------------------------------------------------------
+\* Reference cells: hypercube [-1,1] (local vertex 0 at -1, 1 at +1), simplex [0,1] (local vertex 0 at 0, 1 at 1).  A cell with the
+\* local vertex coordinates (x0, x1) is the image of  xi |-> (x0+x1)/2 + J xi,  J = (x1-x0)/2  (hypercube) resp.  x0 + J xi,  J = x1-x0
+\* (simplex); the vertex pair of a cell may be stored in either order, so J is SIGNED (Trafo::Standard: jac_mat(0,0) = J, and
+\* jac_det = vol(jac_mat) = |J|, kernel/util/tiny_algebra.hpp "for m = n the volume equals the absolute of the determinant").
+\* A 1-D polynomial is given by its coefficient tuple <<c0, c1, c2, c3>> over the denominator Den1D; P1D turns it into a polynomial
+\* of the algebra above (dim = 1, exponent box 0..3), so values / derivatives are PEval / PDiff (formal derivatives).
+\* The basis function of the local dof <<d, k, m>> on the cell is   phi = J^e * p(xi),  e = 1 for the DERIVATIVE dofs of the C1 families
+\* (Hermite-3, Bogner-Fox-Schmit: dof m = 1 of a vertex is the derivative d/dx in PHYSICAL coordinates - the only reading under
+\* which the two cells sharing the vertex mean the same functional, whatever their orientation), e = 0 otherwise.
+Q1D == 3
+P1D(c) == TLCEval([e \in Exps(1, Q1D) |-> c[e[1] + 1]])
+Den1D(el) == CASE el \in {"lagrange1", "lagrange2"} -> 2 [] el \in {"bernstein2", "hermite3", "bfs"} -> 4 [] el = "lagrange3" -> 16 [] OTHER -> 1
+Coeffs1D(el, fam, dkm) ==
+  LET d == dkm[1]  k == dkm[2]  m == dkm[3] IN
+  IF fam = "simplex" THEN
+    CASE el = "discontinuous0" -> << 1, 0, 0, 0 >>
+      [] el = "discontinuous1" -> IF m = 0 THEN << 1, -1, 0, 0 >> ELSE << 0, 1, 0, 0 >>              \* barycentric coordinates 1 - xi, xi
+  ELSE
+    CASE el = "discontinuous0" -> << 1, 0, 0, 0 >>
+      [] el = "discontinuous1" -> IF m = 0 THEN << 1, 0, 0, 0 >> ELSE << 0, 1, 0, 0 >>               \* 1, xi
+      [] el = "lagrange1" -> IF k = 0 THEN << 1, -1, 0, 0 >> ELSE << 1, 1, 0, 0 >>                   \* (1 -+ xi) / 2
+      [] el = "lagrange2" -> IF d = 1 THEN << 2, 0, -2, 0 >> ELSE IF k = 0 THEN << 0, -1, 1, 0 >> ELSE << 0, 1, 1, 0 >>
+      [] el = "bernstein2" -> IF d = 1 THEN << 2, 0, -2, 0 >> ELSE IF k = 0 THEN << 1, -2, 1, 0 >> ELSE << 1, 2, 1, 0 >>
+      \* Lagrange-3: nodes -1, +1 (vertices), -1/3, +1/3 (the two dofs of the cell, in the cell's own reference direction)
+      [] el = "lagrange3" -> IF d = 0 THEN (IF k = 0 THEN << -1, 1, 9, -9 >> ELSE << -1, -1, 9, 9 >>)
+                             ELSE (IF m = 0 THEN << 9, -27, -9, 27 >> ELSE << 9, 27, -9, -27 >>)
+      \* cubic Hermite: value dof  (2 -+ 3 xi +- xi^3)/4,  derivative dof  (xi +- 1)(xi -+ 1)^2 / 4
+      [] el \in {"hermite3", "bfs"} ->
+           IF k = 0 THEN (IF m = 0 THEN << 2, -3, 0, 1 >> ELSE << 1, -1, -1, 1 >>)
+                    ELSE (IF m = 0 THEN << 2, 3, 0, -1 >> ELSE << -1, -1, 1, 1 >>)
+Basis1D(el, fam, dkm) == P1D(Coeffs1D(el, fam, dkm))
+DerivDof1D(el, dkm) == el \in {"hermite3", "bfs"} /\ dkm[3] = 1
+\* node functionals: N(u) = (1 / WDen1D) * sum_t w_t * (d/dx)^ord u (x(n_t / 12)),  n_t = reference coordinate of the point over 12
+\* (so that the thirds of Lagrange-3 are integers); the derivative is the PHYSICAL one.  All terms of one functional have the same ord.
+NodeScale1D == 12
+WDen1D(el) == IF el \in {"bernstein2"} \/ el = "discontinuous1" THEN 2 ELSE 1
+NodeTerms1D(el, fam, dkm) ==
+  LET d == dkm[1]  k == dkm[2]  m == dkm[3]
+      lo == IF fam = "hypercube" THEN -12 ELSE 0
+      mid == IF fam = "hypercube" THEN 0 ELSE 6
+      vtx(v) == IF v = 0 THEN lo ELSE 12
+      T(w, o, n) == [w |-> w, ord |-> o, n |-> n]
+  IN CASE el \in {"lagrange1", "lagrange2"} -> << T(1, 0, IF d = 0 THEN vtx(k) ELSE mid) >>
+       [] el = "lagrange3" -> << T(1, 0, IF d = 0 THEN vtx(k) ELSE IF m = 0 THEN -4 ELSE 4) >>
+       [] el = "discontinuous0" -> << T(1, 0, mid) >>
+       \* P1dc: simplex - the values in the vertices; hypercube - the value in the midpoint and half the difference of the end values
+       [] el = "discontinuous1" -> IF fam = "simplex" THEN << T(2, 0, vtx(m)) >>
+                                   ELSE IF m = 0 THEN << T(2, 0, mid) >> ELSE << T(1, 0, 12), T(-1, 0, -12) >>
+       \* Bernstein-2: the coefficients of the Bernstein expansion of a quadratic: b_v = u(x_v), b_mid = 2 u(mid) - (u(x_0) + u(x_1)) / 2
+       \* (FEAT realises b_mid by an integral against the dual polynomial; the two agree on the local space P2, where Dual is stated)
+       [] el = "bernstein2" -> IF d = 0 THEN << T(2, 0, vtx(k)) >> ELSE << T(4, 0, mid), T(-1, 0, lo), T(-1, 0, 12) >>
+       [] el \in {"hermite3", "bfs"} -> << T(1, m, vtx(k)) >>
+\* Bogner-Fox-Schmit has no NodeFunctional class (Space::BognerFoxSchmit::Element::have_node_func = false): its functionals exist
+\* in the specification only (Dual is decided through the exact basis tables)
+HasNodeFunc1D(el) == el # "bfs"
+\* in one dimension the cubic Hermite spaces are C1; point-value Lagrange / Bernstein spaces are C0
+Conformity1D(el) ==
+  CASE el \in {"hermite3", "bfs"} -> "C1" [] el \in {"lagrange1", "lagrange2", "lagrange3", "bernstein2"} -> "H1" [] OTHER -> "L2"
 
 \* ---- tables, evaluated once per (el, fam, dim) ------------------------------------------------------------------------------------------
 \* record with everything Transfer / ElementCheck need for one exact family
